@@ -19,6 +19,7 @@ func init() {
 			Assumptions: []string{"the agent enforces the lifetime constraint", "validity <= 2^32-1-K (ten years fits)"},
 			Trusted:     []string{"go/packages", "go/types", "go/ssa", "golang.org/x/crypto/ssh/agent"},
 			RuleDoc: map[string]string{
+				"R9.state":    "no memory of earlier calls: on the call tree only frozen package-level variables are touched (known exceptions listed with reasons), and no package-level object is handed out",
 				"R1.keybound": "added identities carry the constructor's private key and lifetime; certificate from the CA answer; full range",
 				"R2.lifetime": "agent lifetime = validity + K, K >= 0; default lifetime non-zero",
 				"R3.refresh":  "removal only under the handler's filter; no RemoveAll; filter = substring of the handler name; label contains it",
@@ -30,6 +31,7 @@ func init() {
 }
 
 func runC03(c *Ctx) {
+	stateRule(c, "R9.state", []*ssa.Function{c.w.Method("agent/ssh", "AgentKey", "AddCertsToAgent"), c.w.Func("agent/ssh", "NewSSHAgentKeyWithOpt"), c.w.Method("gensign/regular", "Handler", "Generate")}, knownState)
 	w := c.w
 	ak := w.NamedType("agent/ssh", "AgentKey")
 	add := w.Method("agent/ssh", "AgentKey", "AddCertsToAgent")
